@@ -82,13 +82,15 @@ Section Common.
     match fst (resume assign canc coro d k w1) with Suspended x _ => ~ In x (fired w1) | Finished _ => True end /\
     (forall x, In x (consumed (snd (resume assign canc coro d k w1))) -> In x (consumed w1) \/ In x (fired w1) \/ x = d).
   Proof.
+    pose proof (drive_world (k (current assign canc w1 d)) w1) as (E1 & E2 & E3 & E4 & _).
+    pose proof (drive_world (k (current assign canc w1 d)) (consume d w1)) as (F1 & F2 & F3 & F4 & _).
     unfold resume, settle. destruct coro.
-    - destruct (drive_world (k (current assign canc w1 d)) w1) as (E1 & E2 & E3 & E4 & _).
-      cbn [fst snd consume fired cancelled consumed]. repeat split; auto.
+    - cbn [fst snd consume fired cancelled consumed].
+      split; [exact E1|]. split; [exact E2|]. split; [exact E3|].
       intros x [<-|Hx]; [auto|]. destruct (E4 x Hx); auto.
-    - destruct (drive_world (k (current assign canc w1 d)) (consume assign canc coro d w1)) as (E1 & E2 & E3 & E4 & _).
-      cbn [consume fired cancelled consumed] in *. repeat split; auto.
-      intros x Hx. destruct (E4 x Hx) as [[<-|H]|H]; auto.
+    - cbn [consume fired cancelled consumed] in *.
+      split; [exact F1|]. split; [exact F2|]. split; [exact F3|].
+      intros x Hx. destruct (F4 x Hx) as [[<-|H]|H]; auto.
   Qed.
 
   Lemma resume_WF d k w1 :
@@ -283,27 +285,27 @@ Section Generator.
     - unfold Model.fire. destruct (mem d (fired w)) eqn:Ef; [auto|]. apply mem_false in Ef.
       set (w1 := mkw (d :: fired w) (cancelled w) (consumed w) (seen w) (held w) (stale w)).
       destruct st as [r|d' k].
-      + cbn [snd]. intros Ha. destruct (agrees_back_fire assign canc c d w Ef W1 Ha) as [H _]. split; [exact H | reflexivity].
+      + cbn [snd]. intros Ha. destruct (agrees_back_fire c d w Ef W1 Ha) as [H _]. split; [exact H | reflexivity].
       + destruct (Nat.eqb_spec d d') as [->|Hne].
         * unfold resume.
           destruct (drive_world assign canc false (k (current assign canc w1 d')) (consume d' w1)) as (E1 & E2 & _).
           intros (A1 & A2). rewrite E1, E2 in *.
           assert (Ha1 : agrees w1) by (split; assumption).
-          destruct (agrees_back_fire assign canc c d' w Ef W1 Ha1) as [Ha Hnc].
+          destruct (agrees_back_fire c d' w Ef W1 Ha1) as [Ha Hnc].
           split; [exact Ha|]. rewrite drive_sync by exact Ha1.
           unfold sync_of. cbn [fst snd Model.sync consume consumed seen w1].
           unfold current, eff. cbn [consumed cancelled w1].
           assert (Hn1 : mem d' (cancelled w) = false) by (apply mem_false; intros H; apply Ef, W1, H).
           assert (Hn2 : mem d' c = false) by (apply mem_false; exact Hnc).
           rewrite Hn1, Hn2. reflexivity.
-        * cbn [snd]. intros Ha. destruct (agrees_back_fire assign canc c d w Ef W1 Ha) as [H _]. split; [exact H | reflexivity].
+        * cbn [snd]. intros Ha. destruct (agrees_back_fire c d w Ef W1 Ha) as [H _]. split; [exact H | reflexivity].
     - unfold Model.cancel. destruct st as [r|d k]; [auto|]. destruct (mem d (held w)); [auto|].
       set (w1 := mkw (d :: fired w) (d :: cancelled w) (consumed w) (Cancelled d :: seen w) (held w) (stale w)).
       unfold resume.
       destruct (drive_world assign canc false (k (current assign canc w1 d)) (consume d w1)) as (E1 & E2 & _).
       intros (A1 & A2). rewrite E1, E2 in *. cbn [fired cancelled consume w1] in *.
       assert (Ha1 : agrees w1) by (split; assumption).
-      destruct (agrees_back_cancel assign canc c d w _ W3 Ha1) as [Ha Hc].
+      destruct (agrees_back_cancel c d w _ W3 Ha1) as [Ha Hc].
       split; [exact Ha|].
       rewrite drive_sync by exact Ha1. unfold sync_of. cbn [fst snd Model.sync consume consumed seen w1].
       rewrite own_cons. cbn [push]. unfold current, eff. cbn [consumed cancelled w1].
@@ -327,7 +329,7 @@ Section Generator.
     intros Ha. unfold run in *.
     destruct (run_back sched _ (start_WF assign canc false pre hold0 g) Ha) as [Ha0 Hs]. rewrite Hs. unfold start in *.
     destruct (drive_world assign canc false g (mkw pre [] [] [] hold0 false)) as (E1 & E2 & _).
-    rewrite drive_sync; [reflexivity|]. unfold Model.agrees in *. rewrite E1, E2 in Ha0. exact Ha0.
+    rewrite drive_sync; [reflexivity|]. unfold Proofs.agrees in *. rewrite E1, E2 in Ha0. exact Ha0.
   Qed.
 End Generator.
 
@@ -391,12 +393,12 @@ Section Coroutine.
     - unfold Model.fire. destruct (mem d (fired w)) eqn:Ef; [auto|]. apply mem_false in Ef.
       set (w1 := mkw (d :: fired w) (cancelled w) (consumed w) (seen w) (held w) (stale w)).
       destruct st as [r|d' k].
-      + cbn [snd]. intros Ha Hs. destruct (agrees_back_fire assign canc c d w Ef W1 Ha) as [H _]. auto.
+      + cbn [snd]. intros Ha Hs. destruct (agrees_back_fire c d w Ef W1 Ha) as [H _]. auto.
       + destruct (Nat.eqb_spec d d') as [->|Hne].
         * intros Ha Hs. destruct (stale_resume d' k w1 Hs) as [Hs1 Hs2].
           destruct (resume_world assign canc true d' k w1) as (E1 & E2 & _).
           assert (Ha1 : agrees w1) by (destruct Ha as (A1 & A2); rewrite E1, E2 in *; split; assumption).
-          destruct (agrees_back_fire assign canc c d' w Ef W1 Ha1) as [Ha0 Hnc].
+          destruct (agrees_back_fire c d' w Ef W1 Ha1) as [Ha0 Hnc].
           split; [exact Ha0|]. split; [exact Hs1|].
           unfold resume, settle, sync_of_nc. cbn [fst snd consume seen].
           pose proof (drive_sync_nc (k (current assign canc w1 d')) w1 Ha1 Hs2) as Hd. unfold sync_of_nc in Hd.
@@ -405,13 +407,13 @@ Section Coroutine.
           assert (Hn1 : mem d' (cancelled w) = false) by (apply mem_false; intros H; apply Ef, W1, H).
           assert (Hn2 : mem d' c = false) by (apply mem_false; exact Hnc).
           rewrite Hn0, Hn1, Hn2. reflexivity.
-        * cbn [snd]. intros Ha Hs. destruct (agrees_back_fire assign canc c d w Ef W1 Ha) as [H _]. auto.
+        * cbn [snd]. intros Ha Hs. destruct (agrees_back_fire c d w Ef W1 Ha) as [H _]. auto.
     - unfold Model.cancel. destruct st as [r|d k]; [auto|]. destruct (mem d (held w)); [auto|].
       set (w1 := mkw (d :: fired w) (d :: cancelled w) (consumed w) (Cancelled d :: seen w) (held w) (stale w)).
       intros Ha Hs. destruct (stale_resume d k w1 Hs) as [Hs1 Hs2].
       destruct (resume_world assign canc true d k w1) as (E1 & E2 & _).
       assert (Ha1 : agrees w1) by (destruct Ha as (A1 & A2); rewrite E1, E2 in *; split; assumption).
-      destruct (agrees_back_cancel assign canc c d w _ W3 Ha1) as [Ha0 Hc].
+      destruct (agrees_back_cancel c d w _ W3 Ha1) as [Ha0 Hc].
       split; [exact Ha0|]. split; [exact Hs1|].
       unfold resume, settle, sync_of_nc. cbn [fst snd consume seen].
       pose proof (drive_sync_nc (k (current assign canc w1 d)) w1 Ha1 Hs2) as Hd. unfold sync_of_nc in Hd.
@@ -430,7 +432,7 @@ Section Coroutine.
   Proof.
     induction ops as [|o r IH]; intros p HW Ha Hs; [auto|]. cbn [fold_left] in *.
     destruct (IH (step p o) (step_WF assign canc true p o HW) Ha Hs) as (Ha1 & Hs1 & He).
-    destruct (step_back_nc p o HW Ha1 Hs1) as (Ha0 & Hs0 & He0). repeat split; [exact Ha0 | exact Hs0 | congruence].
+    destruct (step_back_nc p o HW Ha1 Hs1) as (Ha0 & Hs0 & He0). split; [exact Ha0|]. split; [exact Hs0 | congruence].
   Qed.
 
   Lemma run_sync_nc pre hold0 g sched : agrees (snd (run assign canc true pre hold0 g sched)) ->
@@ -441,7 +443,7 @@ Section Coroutine.
     destruct (run_back_nc sched _ (start_WF assign canc true pre hold0 g) Ha Hs) as (Ha0 & Hs0 & He). rewrite He.
     unfold start in *.
     destruct (drive_world assign canc true g (mkw pre [] [] [] hold0 false)) as (E1 & E2 & _).
-    rewrite drive_sync_nc; [reflexivity | | exact Hs0]. unfold Model.agrees in *. rewrite E1, E2 in Ha0. exact Ha0.
+    rewrite drive_sync_nc; [reflexivity | | exact Hs0]. unfold Proofs.agrees in *. rewrite E1, E2 in Ha0. exact Ha0.
   Qed.
 End Coroutine.
 
